@@ -12,6 +12,7 @@ import (
 	"sort"
 	"strings"
 
+	"github.com/douban/gobeansdb/config"
 	"github.com/douban/gobeansdb/store"
 	"verif/model"
 	"verif/ref"
@@ -49,6 +50,53 @@ func vfBucketDirName(nb, id int) string {
 	return fmt.Sprintf("%x/%x", id/16, id%16)
 }
 
+func vfBucketHex(nb, b int) string {
+	if nb == 256 {
+		return fmt.Sprintf("%02x", b)
+	}
+	return fmt.Sprintf("%x", b)
+}
+
+// vfRouteYaml writes a route table in which this server (addr) has exactly the buckets
+// of served; every other bucket goes to one of two other servers; one backup server.
+func vfRouteYaml(r *ref.Rand, nb int, served []int) (text, addr string) {
+	addr = fmt.Sprintf("host%d:%d", r.Intn(9), 7900+r.Intn(90))
+	mine := map[int]bool{}
+	for _, b := range served {
+		mine[b] = true
+	}
+	others := [][]int{nil, nil}
+	for b := 0; b < nb; b++ {
+		if !mine[b] || r.Intn(4) == 0 { // replicas: some of this server's buckets are on another server too
+			k := r.Intn(2)
+			others[k] = append(others[k], b)
+		}
+	}
+	hexList := func(bs []int) string {
+		var l []string
+		for _, b := range bs {
+			h := vfBucketHex(nb, b)
+			if r.Intn(5) == 0 {
+				h = strings.ToUpper(h)
+			}
+			l = append(l, "\""+h+"\"")
+		}
+		return "[" + strings.Join(l, ", ") + "]"
+	}
+	var sb strings.Builder
+	fmt.Fprintf(&sb, "numbucket: %d\nbackup:\n- backuphost:7900\nmain:\n", nb)
+	order := r.Perm(3)
+	for _, i := range order {
+		switch i {
+		case 0:
+			fmt.Fprintf(&sb, "- addr: %s\n  buckets: %s\n", addr, hexList(served))
+		default:
+			fmt.Fprintf(&sb, "- addr: other%d:7900\n  buckets: %s\n", i, hexList(others[i-1]))
+		}
+	}
+	return sb.String(), addr
+}
+
 func vfC15(env *vfc.Env) {
 	var a vfC15Args
 	env.ParseArgs(&a)
@@ -84,9 +132,42 @@ func vfC15(env *vfc.Env) {
 		if !env.Want(id) {
 			continue
 		}
-		cfg := store.VFConfig{NumBucket: nb, Served: served, TreeHeight: r.Range(2, 3), BodyMax: 1 << 20, DataFileMax: int64(r.Pick(16, 4000<<12)) * 256}
 		info := map[string]interface{}{"buckets": nb, "pattern": pattern, "served": served}
 		res.Begin(id, info)
+		// the served set as a deployment states it: a route table (yaml, bucket names in hex) from which
+		// the server picks the buckets listed under its own address; what the store is configured with
+		// is what the repository's route code makes of that table
+		if nb > 1 {
+			yamlText, addr := vfRouteYaml(r, nb, served)
+			info["route_yaml"] = yamlText
+			rt := &config.RouteTable{}
+			if err := rt.LoadFromYaml([]byte(yamlText)); err != nil {
+				res.Violate(id, "c15:route-table", "a well-formed route table does not load: "+err.Error(), info)
+				continue
+			}
+			rc := rt.GetDBRouteConfig(addr)
+			var got []int
+			for b, st := range rc.BucketsStat {
+				if st > 0 {
+					got = append(got, b)
+				}
+			}
+			res.Eval(1)
+			if rc.NumBucket != nb || fmt.Sprint(got) != fmt.Sprint(append([]int{}, served...)) {
+				res.Violate(id, "c15:route-table", fmt.Sprintf("route table for %s with %d buckets lists buckets %v for this server; the route code configures %d buckets, served %v", addr, nb, served, rc.NumBucket, got), info)
+				continue
+			}
+			for _, hx := range rc.BucketsHex {
+				var b int
+				fmt.Sscanf(hx, "%x", &b)
+				if hx != vfBucketHex(nb, b) {
+					res.Violate(id, "c15:route-table", fmt.Sprintf("bucket %d of %d is named %q by the route code, its hex name is %q", b, nb, hx, vfBucketHex(nb, b)), info)
+				}
+			}
+			res.Event("route_tables", 1)
+			served = got
+		}
+		cfg := store.VFConfig{NumBucket: nb, Served: served, TreeHeight: r.Range(2, 3), BodyMax: 1 << 20, DataFileMax: int64(r.Pick(16, 4000<<12)) * 256}
 		sut, err := vfOpenSUT(cfg, filepath.Join(env.Work, id), res)
 		if err != nil {
 			res.Violate(id, "c15:open-error", err.Error(), info)
